@@ -29,6 +29,14 @@ def handle(job):
     r = tfrun.Runner(o, shapes, seed, dtype=dtype)
     r2 = tfrun.Runner(dict(o, lr=2 * o["lr"]), shapes, seed, dtype=dtype)
     grads = tfrun.make_grads(shapes, ["ok"] * T, seed, dtype=dtype)
+    if geo.get("tie_first") and len(shapes[target]) == 2:
+      # embedding-like first gradient: orthogonal one-hot columns of equal magnitude, so the singular
+      # values are exactly tied at the sketch cut-off (directions deflated to exactly zero)
+      nm = f"p{target}"
+      a = np.zeros(shapes[target], dtype)
+      for i in range(min(shapes[target])):
+        a[i, i] = 1.0
+      grads[0] = dict(grads[0]); grads[0][nm] = jnp.asarray(a)
     if geo.get("row_scale"):      # per-block gradient scale disparity (rows a..b of the target times f)
       nm = f"p{target}"
       for g in grads:
